@@ -210,12 +210,24 @@ const char *const hx_kinds[] = {
 };
 const int hx_nkinds = (int) (sizeof(hx_kinds) / sizeof(hx_kinds[0]));
 
+long hx_force_len = -1; /* when >= 0 every generated message length is this value (rounded to the mode's granularity) */
+
 static uint32_t
 pick_len(hx_rng *r, uint32_t blk, uint32_t minlen, uint32_t maxlen, uint32_t hashblk)
 {
         uint32_t cls = hx_below(r, 100), n;
         if (maxlen == 0)
                 return 0;
+        if (hx_force_len >= 0) {
+                n = (uint32_t) hx_force_len;
+                if (blk > 1)
+                        n = (n + blk - 1) / blk * blk;
+                if (n < minlen)
+                        n = minlen;
+                if (n > maxlen)
+                        n = maxlen / blk * blk;
+                return n;
+        }
         if (cls < 45) /* small: 1..6 units */
                 n = (1 + hx_below(r, 6)) * (blk > 1 ? blk : 16) - (blk > 1 ? 0 : hx_below(r, 16));
         else if (cls < 75) /* padding thresholds / block boundaries */
@@ -322,7 +334,7 @@ hx_spec_from_kind(const char *kind, hx_rng *r, hx_spec *sp)
         if (c->cm != IMB_CIPHER_NULL) {
                 sp->len = pick_len(r, c->blk, c->minlen, c->maxlen > 16384 ? 16384 : c->maxlen,
                                    h->blk);
-                if (c->aead_hash && hx_below(r, 12) == 0)
+                if (c->aead_hash && hx_below(r, 12) == 0 && hx_force_len < 0)
                         sp->len = 0;
                 if (c->bitlen)
                         sp->bitadj = hx_below(r, 8);
